@@ -252,10 +252,16 @@ Section Refresh.
              {| f_id := f_id f; f_url := f_url f; f_enabled := f_enabled f; f_name := f_name f;
                 f_count := f_count f; f_sum := restored_sum f u |}, fs')
           else if u_updated u then (true, false, u_list u, fs')
-          else
+          else if f_sum f1 =? 0 then
             (* the content has the checksum of an unloaded list, i.e. no rules:
                whatever file is stored is removed and the engine rebuilt *)
             (true, false, u_list u, fdel (f_id f) fs')
+          else
+            (* the entry has a checksum although it was disabled (a refresh
+               that was downloading it when it got disabled has copied it
+               back) and the content has that checksum: the stored file is
+               kept (fix 7322afe), the engine rebuilt *)
+            (true, false, u_list u, fs')
         else (false, false, f1, fs)
       else (restart, false, unload f1, fs).
 
@@ -289,6 +295,49 @@ Section Refresh.
         let eng := if negb er && rs then rebuild bl al fs' else r_engine st in
         (rs, er, {| r_block := bl; r_allow := al; r_files := fs'; r_engine := eng |})
     end.
+
+  (** ** A pass overlapped by a set_url call (round 8, fix 7322afe)
+
+      [refreshFiltersArray] takes its working copies under the lock
+      ([listsToUpdate]), downloads without it, and copies the results back
+      under the lock into the array as it is by then.  [to_update] and
+      [finish_array] are these two halves ([refresh_array] is one after the
+      other on the same array, see [refresh_array_split] in the proofs). *)
+  Definition to_update (ls : list flist) (force : bool) (due : N -> bool) : list flist :=
+    map wcopy (filter (fun l => f_enabled l && (force || due (f_id l))) ls).
+
+  Definition finish_array (ws : list flist) (ls : list flist) (oc : N -> outcome) (fs : files)
+      : N * bool * list flist * files :=
+    match ws with
+    | [] => (0, false, ls, fs)
+    | _ =>
+        let '(us, fs') := update_all ws oc fs in
+        if forallb u_err us then (0, true, ls, fs')
+        else let '(n, ls') := copy_back_all us ls in (n, false, ls', fs')
+    end.
+
+  (** A pass over one array ([allow] says which) whose working copies are
+      taken in [st]; while its first download is under way [mid] runs (a
+      set_url call that downloads nothing: rename, disable; it touches no
+      file); the downloads finish, replace the files and the results are
+      copied back into the array [mid] has left; [refreshFiltersIntl] rebuilds
+      the engine if some list was updated. *)
+  Definition refresh_over (allow force : bool) (due : N -> bool) (oc : N -> outcome)
+      (mid : rstate -> rstate) (st : rstate) : rstate :=
+    let ws := to_update (if allow then r_allow st else r_block st) force due in
+    let st1 := mid st in
+    let '(n, e, ls', fs') := finish_array ws (if allow then r_allow st1 else r_block st1) oc (r_files st1) in
+    let bl := if allow then r_block st1 else ls' in
+    let al := if allow then ls' else r_allow st1 in
+    {| r_block := bl; r_allow := al; r_files := fs';
+       r_engine := if e then r_engine st1 else if n =? 0 then r_engine st1 else rebuild bl al fs' |}.
+
+  Definition over_report (allow force : bool) (due : N -> bool) (oc : N -> outcome)
+      (mid : rstate -> rstate) (st : rstate) : N * bool :=
+    let ws := to_update (if allow then r_allow st else r_block st) force due in
+    let st1 := mid st in
+    let '(n, e, _, _) := finish_array ws (if allow then r_allow st1 else r_block st1) oc (r_files st1) in
+    (n, e).
 
   (** [EnableFilters] as any other settings change or a restart calls it. *)
   Definition rebuild_now (st : rstate) : rstate :=
